@@ -15,21 +15,22 @@ class Google:
     style = STYLE
     module = "DocGoogle"
 
-    def __init__(self, griffe):
-        import _griffe.docstrings.google as G  # noqa: PLC0415
+    # what the parser's admonition / named-value patterns accept, as documented (docs/reference/docstrings.md: "section identifier:
+    # optional section title"; "name (type): description") - own transcriptions, VALIDATED against the parser's behaviour by
+    # check_classifier(); no private object of the parser module is read
+    ADMONITION = re.compile(r"^(?P<type>[\w][\s\w-]*):(\s+(?P<title>[^\s].*))?\s*$", re.IGNORECASE)
+    NAMED_VALUE = re.compile(r"^(?:(?P<name>\w+)?\s*(?:\((?P<type>.+)\))?:\s*)?(?P<desc>.*)$")
 
-        self.G = G
+    def __init__(self, griffe):
+        from gverif.props.c12_probe import probe_titles  # noqa: PLC0415
+
         self.griffe = griffe
-        # section keyword tables EXTRACTED from the working tree at check time
-        self.keywords: dict = {}
-        for kw, kind in G._section_kind.items():
-            self.keywords.setdefault(kind.value.replace(" ", "_"), []).append(kw)
-        self.readers = {k.value.replace(" ", "_") for k in G._section_reader}
-        if set(self.keywords) != self.readers:
-            die(f"google: _section_kind kinds {sorted(self.keywords)} != _section_reader kinds {sorted(self.readers)}")
+        # section keyword table PROBED through the public parser at check time
+        self.keywords = probe_titles(griffe, "google")
+        self.kind_of = {kw: kind for kind, kws in self.keywords.items() for kw in kws}
         spec_kinds = {"parameters", "other_parameters", "raises", "warns", "functions", "classes", "modules", "attributes", "returns", "yields", "receives", "examples"}
         if set(self.keywords) != spec_kinds:
-            die(f"google: section kinds of the working tree {sorted(self.keywords)} differ from the kinds of DocGoogle.tla {sorted(spec_kinds)}")
+            die(f"google: the parser accepts titles for the section kinds {sorted(self.keywords)}, DocGoogle.tla models {sorted(spec_kinds)}")
 
     # ---- concretiser -----------------------------------------------------------------------------------------
     def spell(self, ln: dict, i: int, v: int) -> dict:
@@ -94,17 +95,16 @@ class Google:
 
     # ---- classifier: line -> class, computed with the regexes / tables of the working tree -------------------------
     def classify(self, line: str) -> dict:
-        G = self.G
-        if G._is_empty_line(line):
+        if not line.strip():
             return {"k": "blank", "ind": 0, "a": "e" if line == "" else "w", "t": False}
         ind = len(line) - len(line.lstrip())
         if line.lower().lstrip(" ").startswith("```"):
             return {"k": "fence", "ind": ind, "a": "-" if ":" not in line else "colon", "t": False}
-        m = G._RE_ADMONITION.match(line)
+        m = self.ADMONITION.match(line)
         if m:
             typ = m.group("type")
-            if typ.lower() in G._section_kind:
-                return {"k": "sec", "ind": ind, "a": G._section_kind[typ.lower()].value.replace(" ", "_"), "t": m.group("title") is not None}
+            if typ.lower() in self.kind_of:
+                return {"k": "sec", "ind": ind, "a": self.kind_of[typ.lower()], "t": m.group("title") is not None}
             return {"k": "adm", "ind": ind, "a": "-", "t": m.group("title") is not None}
         if ind == 0:
             return {"k": "text", "ind": 0, "a": "colon" if ":" in line else "plain", "t": False}
@@ -115,7 +115,7 @@ class Google:
             form = "F5"
         else:
             pre = body.split(":", 1)[0]
-            m2 = G._RE_NAME_ANNOTATION_DESCRIPTION.match(body)
+            m2 = self.NAMED_VALUE.match(body)
             nm, ty = m2.group("name"), m2.group("type")
             if pre == "":
                 form = "F4"
@@ -130,6 +130,47 @@ class Google:
             else:
                 form = "F?"
         return {"k": "item", "ind": ind, "a": form, "t": False}
+
+    # ---- behaviour of the real parser on one spelling (public API only) ---------------------------------------------
+    def behaves_as(self, ln: dict, p: dict) -> str | None:
+        """Does the PARSER treat the concrete line the way its class says?  None = yes, else what differs."""
+        D = self.griffe.Docstring
+        text, k = p["text"], ln["k"]
+
+        def parse(doc, **opts):
+            return D(doc).parse("google", **opts)
+
+        if k == "blank":
+            return None if not text.strip() else "not blank"
+        if k in ("sec", "adm", "text"):
+            secs = parse(f"S.\n\n{text}\n    x: d")
+            kinds = [s.kind.value.replace(" ", "_") for s in secs]
+            if k == "sec":
+                ok = kinds == ["text", ln["a"]] and secs[1].title == p["title"]
+            elif k == "adm":
+                ok = kinds == ["text", "admonition"] and secs[1].title == (p["title"] or p["admtype"])
+            else:
+                ok = kinds == ["text"] and ((":" in text) == (ln["a"] == "colon"))
+            return None if ok else f"parser gives {kinds} / titles {[s.title for s in secs]}"
+        if k == "fence":      # opens a code block: the section header below is not interpreted
+            kinds = [s.kind.value for s in parse(f"S.\n\n{text}\n\nArgs:\n    x: d")]
+            return None if kinds == ["text"] else f"parser gives {kinds} below the fence"
+        if k == "prompt":
+            secs = parse(f"S.\n\nExamples:\n{text}", trim_doctest_flags=False)
+            subs = [(a.value, b) for a, b in secs[1].value] if len(secs) == 2 and secs[1].kind.value == "examples" else None
+            return None if subs == [("examples", text.strip())] else f"parser gives {subs}"
+        # item forms, as the named returns reader sees them
+        secs = parse(f"S.\n\nReturns:\n{text}\nend")
+        if len(secs) < 2 or secs[1].kind.value != "returns" or len(secs[1].value) != 1:
+            return f"parser gives {[s.kind.value for s in secs]}"
+        el = secs[1].value[0]
+        a = ln["a"]
+        want_name = {"F1": p.get("name"), "F2": p.get("name"), "F3": "", "F4": "", "F5": "", "F6": p.get("name")}[a]
+        typed = a in ("F2", "F3", "F6")
+        desc = p["desc"] if a != "F5" else text.strip()
+        if el.name != want_name or (typed != (el.annotation is not None and p.get("type") is not None and p["type"] in str(el.annotation).replace(", ", ","))) or el.description != desc:
+            return f"parser gives name={el.name!r} annotation={el.annotation!r} description={el.description!r}"
+        return None
 
     # ---- the alphabet of DocGoogle.tla ("rich"), for the classifier test and the long sequences -------------------
     def long_alphabet(self) -> list:
@@ -170,7 +211,7 @@ class Google:
         return bool((options.get("ignore_init_summary") and parent == "init") or (options.get("returns_type_in_property_summary") and parent in ("property", "tupleprop")))
 
     def check_classifier(self):
-        """Every spelling of every class classifies back to the class (real regexes decide)."""
+        """Every spelling of every class classifies back to the class, and the PARSER (public API) treats it as that class."""
         n = 0
         for ln in self.long_alphabet():
             for v in range(12):
@@ -180,6 +221,10 @@ class Google:
                     n += 1
                     if got != {"k": ln["k"], "ind": ln["ind"], "a": ln["a"], "t": ln["t"]}:
                         die(f"google classifier: spelling {p['text']!r} of class {ln} classifies as {got}")
+                    if i == 3 and not (ln["k"] == "item" and ln["ind"] != 4):
+                        diff = self.behaves_as(ln, p)
+                        if diff:
+                            die(f"google classifier: the parser does not treat {p['text']!r} as class {ln}: {diff}")
         return n
 
     # ---- syntax predicate of the plain-text clause ---------------------------------------------------------------
